@@ -8,7 +8,7 @@ from fractions import Fraction
 from ..affine import Lin, entails, from_cond
 from ..bounds import lower_bound, prove_ge0
 from ..index import FuncInfo
-from ..nf import NF, Atom, Undecided, app, atoms_of, evalnf, lift, nf_equal, single_atom, subst, sym
+from ..nf import as_linear, NF, Atom, Undecided, app, atoms_of, evalnf, lift, nf_equal, single_atom, subst, sym
 from ..values import NONE, Cond, ListV, NoneV, Num, ObjV, OpaqueV, SliceV, StrV, TupleV, valkey
 from .c02 import call_roles, find_driver_call
 from .common import (
@@ -411,6 +411,62 @@ def check_generator(ctx, gen: FuncInfo, prop):
     ls = [ev for q in rets for ev in q.events if ev.kind == "list_store"]
     okf = any(isinstance(ev.data["value"], Num) and nf_equal(ev.data["value"].nf, n - lo_) and isinstance(ev.data["index"][0], Num) and ev.data["index"][0].nf.as_const() == -1 for ev in ls)
     ctx.check(okf, f"{prop}.d CLIP", "last-interval", ls[0].loc() if ls else gen.loc(), "when clipping made the last interval of a length too short its start is moved to n - min_length", found=[repr(ev.data["value"]) for ev in ls])
+    # the fix-up is guarded by the length of that last interval: ends[-1] - starts[-1] < min_length (<= is equivalent)
+    lid_role = {}
+    if isinstance(p.value, TupleV) and len(p.value.items) == 2:
+        for k_, o_ in enumerate(p.value.items):
+            src_ = o_.meta.get("from_list") if isinstance(o_, Num) else None
+            sl_ = getattr(src_, "slice_of", None)
+            if sl_ is not None and isinstance(sl_[0], ListV):
+                lid_role[sl_[0].lid] = "starts" if k_ == 0 else "ends"
+    for ev in ls[:1]:
+        g = ev.facts[-1] if ev.facts else None
+        okg = False
+        shown = repr(g[0]) if g else "unguarded"
+        if g is not None and g[0].t[0] == "cmp" and g[0].t[1] in ("<0", "<=0") and g[1]:
+            lin = as_linear(g[0].t[2])
+            if lin is not None:
+                c0, co = lin
+                coef = {"starts": 0, "ends": 0, "min": 0, "other": 0}
+                for a_, k_ in co.items():
+                    txt = repr(a_)
+                    role = None
+                    for lid_, r_ in lid_role.items():
+                        if f"list#{lid_})" in txt or f"list#{lid_}." in txt or f"listitem({lid_}," in txt:
+                            role = r_
+                    if role is None and nf_equal(NF.atom(a_), lo_):
+                        role = "min"
+                    coef[role or "other"] += k_
+                okg = c0 == 0 and coef["ends"] == 1 and coef["starts"] == -1 and coef["min"] == -1 and coef["other"] == 0
+        ctx.check(okg, f"{prop}.d CLIP", "last-interval|guard", ev.loc(), "the last interval is moved exactly when it is shorter than min_length: ends[-1] - starts[-1] < min_length", found=shown[:160], expected="ends[-1] - starts[-1] - min_length < 0")
+    # all shifts but the last leave a full-length interval inside the data: the number of shifts is ceil((n - len)/step)
+    # with the same step the positions use, so (n_steps - 1)*step < n - len, and the positions start at shift 0
+    for ce in comps:
+        role = comp_role.get(id(ce.data["result"]))
+        it = ce.data["iter"]
+        if role != "starts" or not isinstance(it, RangeV) or start_elem is None:
+            continue
+        lvc = [a_ for a_ in atoms_of(start_elem).values() if a_.kind == "lv" and "#comp" in str(a_.args[0])]
+        if len(lvc) != 1:
+            ctx.undecided(rule, "shifts|count", ce.loc(), "cannot isolate the shift index in the start positions")
+            continue
+        step_nf = subst(_strip_int_local(start_elem), {lvc[0].key: NF.const(1)})
+        zero_at_0 = subst(_strip_int_local(start_elem), {lvc[0].key: NF.const(0)}).is_zero()
+        nsteps = _strip_int_local(it.hi.nf - 1)
+        na = single_atom(nsteps)
+        okn = it.lo.nf.as_const() == 0 and it.step.nf.as_const() == 1 and zero_at_0 and na is not None and na.kind == "app" and na.args[0] == "ceil" and nf_equal(lift(na.args[1]) * step_nf, n - ln)
+        ctx.check(okn, f"{prop}.d CLIP", "shifts|count", ce.loc(), "shift positions are i*step for i = 0..ceil((n - len)/step): every shift but the last leaves a full-length interval inside [0, n]", found=f"range({it.lo.nf!r}, {it.hi.nf!r}) of {start_elem!r}"[:220], expected="range(0, ceil((n - len)/step) + 1) of i*step")
+    # starts and ends are generated in pairs: the two comprehensions run over the same range
+    rngs = {}
+    for ce in comps:
+        role = comp_role.get(id(ce.data["result"]))
+        it = ce.data["iter"]
+        if role is not None and isinstance(it, RangeV):
+            rngs[role] = it
+    if len(rngs) == 2:
+        a_, b_ = rngs["starts"], rngs["ends"]
+        okp = nf_equal(a_.lo.nf, b_.lo.nf) and nf_equal(_strip_int_local(a_.hi.nf), _strip_int_local(b_.hi.nf)) and nf_equal(a_.step.nf, b_.step.nf)
+        ctx.check(okp, f"{prop}.d CLIP", "shifts|paired", comps[0].loc(), "one end per start: both position lists are generated over the same range of shifts", found=f"starts over {valkey(a_)[:80]}, ends over {valkey(b_)[:80]}")
     # result: arrays of the two lists without their dummy first element
     out = p.value
     ok_out = isinstance(out, TupleV) and len(out.items) == 2
@@ -420,6 +476,12 @@ def check_generator(ctx, gen: FuncInfo, prop):
             sl = getattr(src, "slice_of", None)
             ok_out = ok_out and sl is not None and isinstance(sl[1].lo, Num) and sl[1].lo.nf.as_const() == 1 and isinstance(sl[1].hi, NoneV)
     ctx.check(ok_out, f"{prop}.d CLIP", "result", gen.loc(), "the typing dummies at position 0 of both lists are dropped from the result", nontrivial=False)
+
+
+def _strip_int_local(nf):
+    from .c03 import _strip_int
+
+    return _strip_int(nf)
 
 
 def _strip(nf):
